@@ -6,7 +6,7 @@ const (
 	opExtract         Operator = "->"
 	opExtractText     Operator = "->>"
 	opExtractPath     Operator = "#>"
-	opExtractPathText Operator = ">>"
+	opExtractPathText Operator = "#>>"
 	opContains        Operator = "@>"
 	opContainedBy     Operator = "<@"
 )
